@@ -264,8 +264,12 @@ func ComposeDriverSeeded(tablePath string, n int, salt int64) [][]Action {
 		case 0:
 			a.Preamble = []string{"#include <a.h>", "int f();\n\n\nint g();"}
 		case 1:
-			a.Headers = []string{"Code generated. DO NOT EDIT."}
-			a.Comments = []string{"Package main is generated.", "second\nparagraph"}
+			hs := []string{"Code generated. DO NOT EDIT.", "trailing blanks   ", "tab\tinside and after\t", "multi\nline with */ inside", "  leading blanks", "ends with newline\n", "//raw marker kept"}
+			a.Headers = []string{hs[r.Intn(len(hs))]}
+			if r.Intn(2) == 0 {
+				a.Headers = append(a.Headers, hs[r.Intn(len(hs))])
+			}
+			a.Comments = []string{"Package main is generated.", []string{"second\nparagraph", "trailing blank ", "x */ y\nz"}[r.Intn(3)]}
 		case 2:
 			a.Canonical = "example.com/canon"
 			a.Comments = []string{"Package doc"}
